@@ -271,9 +271,9 @@ def run(ctx):
         pr = mp.probe(REPO)
         cov["static_mutation_probe"] = {n: v for n, v in pr}
         cov["static_mutants_detected"] = "%d of %d (plus %d harmless edit(s) accepted)" % (
-            sum(1 for n, v in pr if not n.startswith("harmless") and (v.startswith("BROKEN") or v.startswith("extractor refuses"))),
-            sum(1 for n, v in pr if not n.startswith("harmless")),
-            sum(1 for n, v in pr if n.startswith("harmless") and v.startswith("all obligations")))
+            sum(1 for n, v in pr if "harmless" not in n and (v.startswith("BROKEN") or v.startswith("extractor refuses"))),
+            sum(1 for n, v in pr if "harmless" not in n),
+            sum(1 for n, v in pr if "harmless" in n and v.startswith("all obligations")))
     # ---- 2. entry points on real repositories
     seqs = []
     nseeds = 3 if ctx.thorough() else 1
